@@ -443,6 +443,12 @@ func ruleNoGuardedAlias(c *Ctx, rule string) {
 						}
 					}
 					check(ld, 0)
+					if bad != "" {
+						if _, isSlice := f.Type().Underlying().(*types.Slice); isSlice && w.overwrittenBelowLen(f) == "" {
+							c.OK(rule, fname(fn), name, w.instrPos(ld), "the value leaves the critical section ("+bad+"), but the array it shares is never written below its length (every store is append(field, …) or a fresh slice, no element is assigned, holders only read): what the holder sees cannot change")
+							continue
+						}
+					}
 					if bad == "" {
 						c.OK(rule, fname(fn), name, w.instrPos(ld), "the value stays inside the function's critical section")
 					} else {
